@@ -247,8 +247,16 @@ func clauseLabel(c Clause, idx int) (label string, props []string) {
 	return
 }
 
+// qualName prefixes contracts of non-root packages with their short path (plugins/strconv.Atoi$1).
+func qualName(b *Block) string {
+	if b.Pkg == roPath || b.Pkg == "" {
+		return b.Name
+	}
+	return strings.TrimPrefix(b.Pkg, roPath+"/") + "." + b.Name
+}
+
 func (kc *kernelCtx) runFunc(b *Block) *Unit {
-	u := &Unit{Name: b.Name, Props: b.props(), Layer: "K"}
+	u := &Unit{Name: qualName(b), Props: b.props(), Layer: "K"}
 	fns := kc.w.allFuncs(b.Pkg)
 	fn := fns[b.Name]
 	if fn == nil {
@@ -500,7 +508,7 @@ func (kc *kernelCtx) runFunc(b *Block) *Unit {
 		if p, ok := propsOf[n]; ok {
 			props = p
 		}
-		o := OutObl{Name: b.Name + "/" + n, Props: props, Layer: "K", Func: b.Name, Clause: meta[n].Note, Pos: x.pos(meta[n].Pos), Paths: len(byName[n]), Contract: shortFile(b.File)}
+		o := OutObl{Name: qualName(b) + "/" + n, Props: props, Layer: "K", Func: qualName(b), Clause: meta[n].Note, Pos: x.pos(meta[n].Pos), Paths: len(byName[n]), Contract: shortFile(b.File)}
 		if trivial {
 			o.Backend, o.Status = "structural", "discharged"
 		} else {
@@ -509,7 +517,7 @@ func (kc *kernelCtx) runFunc(b *Block) *Unit {
 		u.Obls = append(u.Obls, o)
 	}
 	if npaths > 0 {
-		u.Obls = append(u.Obls, OutObl{Name: b.Name + "/cover", Props: u.Props, Layer: "K", Func: b.Name, Clause: "vacuity cover: some path satisfies the preconditions and invariants", Backend: "smt", SMT: coverQuery(d, pcs), Cover: true, Paths: npaths, Contract: shortFile(b.File)})
+		u.Obls = append(u.Obls, OutObl{Name: qualName(b) + "/cover", Props: u.Props, Layer: "K", Func: qualName(b), Clause: "vacuity cover: some path satisfies the preconditions and invariants", Backend: "smt", SMT: coverQuery(d, pcs), Cover: true, Paths: npaths, Contract: shortFile(b.File)})
 	} else {
 		u.Errs = append(u.Errs, "no complete path through "+b.Name)
 	}
